@@ -3,28 +3,29 @@
    increases (C06).  The proof skeleton is that of Lemmas/FrameProofs.v. *)
 From Coq Require Import Lia.
 From VJ Require Import Model.Str Model.Json Model.Ast Model.State Model.Util Model.Text
-  Model.Directive Model.Lower Lemmas.NodeInd Lemmas.StrLemmas.
+  Model.Directive Model.Lower Spec.Plain Lemmas.NodeInd Lemmas.StrLemmas.
 
 Definition grow (s s' : st) : Prop :=
   (forall x, mem_str x (imports s) = true -> mem_str x (imports s') = true)
-  /\ (exists l, inj_vars s' = inj_vars s ++ l)
-  /\ (exists l, inj_consts s' = inj_consts s ++ l)
+  /\ (exists l, inj_vars s' = inj_vars s ++ l /\ forallb jsx_free l = true)
+  /\ (exists l, inj_consts s' = inj_consts s ++ l /\ forallb jsx_free l = true)
   /\ (fresh s <= fresh s')%N.
 
 Lemma grow_refl s : grow s s.
-Proof. split; [auto|]. split; [exists []; symmetry; apply app_nil_r|]. split; [exists []; symmetry; apply app_nil_r|try apply N.le_refl; try apply N.le_add_r; try lia]. Qed.
+Proof. split; [auto|]. split; [exists []; split; [symmetry; apply app_nil_r|reflexivity]|]. split; [exists []; split; [symmetry; apply app_nil_r|reflexivity]|try apply N.le_refl; try apply N.le_add_r; try lia]. Qed.
 
 Lemma grow_trans a b c : grow a b -> grow b c -> grow a c.
 Proof.
-  intros (A1 & [l1 A2] & [m1 A3] & A4) (B1 & [l2 B2] & [m2 B3] & B4).
-  split; [auto|]. split; [exists (l1 ++ l2); rewrite B2, A2, app_assoc; reflexivity|].
-  split; [exists (m1 ++ m2); rewrite B3, A3, app_assoc; reflexivity|lia].
+  intros (A1 & [l1 [A2 A2']] & [m1 [A3 A3']] & A4) (B1 & [l2 [B2 B2']] & [m2 [B3 B3']] & B4).
+  split; [auto|].
+  split; [exists (l1 ++ l2); split; [rewrite B2, A2, app_assoc; reflexivity|rewrite forallb_app, A2', B2'; reflexivity]|].
+  split; [exists (m1 ++ m2); split; [rewrite B3, A3, app_assoc; reflexivity|rewrite forallb_app, A3', B3'; reflexivity]|lia].
 Qed.
 
 Ltac fr := repeat first [apply grow_refl | eapply grow_trans; [eassumption|] | eassumption].
 
-Ltac same_fields s := destruct s; cbn -[N.le N.add]; split; [auto|]; split; [exists []; symmetry; apply app_nil_r|];
-                      split; [exists []; symmetry; apply app_nil_r|try apply N.le_refl; try apply N.le_add_r; try lia].
+Ltac same_fields s := destruct s; cbn -[N.le N.add]; split; [auto|]; split; [exists []; split; [symmetry; apply app_nil_r|reflexivity]|];
+                      split; [exists []; split; [symmetry; apply app_nil_r|reflexivity]|try apply N.le_refl; try apply N.le_add_r; try lia].
 
 Lemma mem_set_insert_same x l : mem_str x (set_insert x l) = true.
 Proof.
@@ -44,12 +45,12 @@ Qed.
 Lemma grow_set_imports_insert n s : grow s (set_imports (set_insert n (imports s)) s).
 Proof.
   destruct s; cbn -[N.le N.add]. split; [intros x H; apply mem_set_insert_keep; exact H|].
-  split; [exists []; symmetry; apply app_nil_r|]. split; [exists []; symmetry; apply app_nil_r|try apply N.le_refl; try apply N.le_add_r; try lia].
+  split; [exists []; split; [symmetry; apply app_nil_r|reflexivity]|]. split; [exists []; split; [symmetry; apply app_nil_r|reflexivity]|try apply N.le_refl; try apply N.le_add_r; try lia].
 Qed.
-Lemma grow_inj_vars_app x s : grow s (set_inj_vars (inj_vars s ++ x) s).
-Proof. destruct s; cbn -[N.le N.add]. split; [auto|]. split; [exists x; reflexivity|]. split; [exists []; symmetry; apply app_nil_r|try apply N.le_refl; try apply N.le_add_r; try lia]. Qed.
-Lemma grow_inj_consts_app x s : grow s (set_inj_consts (inj_consts s ++ x) s).
-Proof. destruct s; cbn -[N.le N.add]. split; [auto|]. split; [exists []; symmetry; apply app_nil_r|]. split; [exists x; reflexivity|apply N.le_refl]. Qed.
+Lemma grow_inj_vars_app x s : forallb jsx_free x = true -> grow s (set_inj_vars (inj_vars s ++ x) s).
+Proof. intros Hx. destruct s; cbn -[N.le N.add]. split; [auto|]. split; [exists x; split; [reflexivity|exact Hx]|]. split; [exists []; split; [symmetry; apply app_nil_r|reflexivity]|try apply N.le_refl; try apply N.le_add_r; try lia]. Qed.
+Lemma grow_inj_consts_app x s : forallb jsx_free x = true -> grow s (set_inj_consts (inj_consts s ++ x) s).
+Proof. intros Hx. destruct s; cbn -[N.le N.add]. split; [auto|]. split; [exists []; split; [symmetry; apply app_nil_r|reflexivity]|]. split; [exists x; split; [reflexivity|exact Hx]|apply N.le_refl]. Qed.
 Lemma grow_set_ton v s : grow s (set_ton v s). Proof. same_fields s. Qed.
 Lemma grow_set_slot_helper v s : grow s (set_slot_helper v s). Proof. same_fields s. Qed.
 Lemma grow_set_slot_counter v s : grow s (set_slot_counter v s). Proof. same_fields s. Qed.
@@ -63,8 +64,8 @@ Lemma grow_import name s : grow s (snd (import_from_vue name s)).
 Proof. apply grow_set_imports_insert. Qed.
 Lemma grow_fresh sy s : grow s (snd (fresh_ident sy s)).
 Proof.
-  destruct s; cbn -[N.le N.add]. split; [auto|]. split; [exists []; symmetry; apply app_nil_r|].
-  split; [exists []; symmetry; apply app_nil_r|try apply N.le_refl; try apply N.le_add_r; try lia].
+  destruct s; cbn -[N.le N.add]. split; [auto|]. split; [exists []; split; [symmetry; apply app_nil_r|reflexivity]|].
+  split; [exists []; split; [symmetry; apply app_nil_r|reflexivity]|try apply N.le_refl; try apply N.le_add_r; try lia].
 Qed.
 
 Section Grow.
@@ -182,7 +183,7 @@ Proof.
   cbn [snd] in Hf.
   match goal with |- context [build_iife_elems lft r ?s2] =>
     pose proof (IH s2) as H; destruct (build_iife_elems lft r s2) end.
-  cbn [snd] in *. eapply grow_trans; [exact Hf|]. eapply grow_trans; [apply grow_inj_consts_app|exact H].
+  cbn [snd] in *. eapply grow_trans; [exact Hf|]. eapply grow_trans; [|exact H]. apply grow_inj_consts_app. reflexivity.
 Qed.
 
 Lemma grow_build_iife elems s : grow s (snd (build_iife elems s)).
@@ -197,7 +198,7 @@ Proof.
   match goal with |- context [fresh_ident ?sy ?st0] =>
     pose proof (grow_fresh sy st0) as Hf; destruct (fresh_ident sy st0) as [[id ctx0] s1] end.
   cbn [snd] in *. eapply grow_trans; [exact Hf|].
-  eapply grow_trans; [apply grow_inj_vars_app|apply grow_set_slot_counter].
+  eapply grow_trans; [apply grow_inj_vars_app|apply grow_set_slot_counter]. reflexivity.
 Qed.
 
 Lemma grow_finish_children elems ic slots s : grow s (snd (finish_children E elems ic slots s)).
